@@ -76,6 +76,8 @@ def specs():
     for kt in KAFKA_TYPES:
         if kt not in NULLABLE_KT and kt != "records":
             out.append({"kt": kt, "flexible": True, "nullable": True, "array": False, "tagged": True, "default": True, "convention": True})
+    # a tagged struct whose own members are tagged (tagged value encoded inside a tagged value; no shipped class nests them)
+    out.append({"nested_tagged": True, "flexible": True})
     # request-header client_id rule is covered on the real header classes by the main exploration
     return out
 
@@ -90,6 +92,24 @@ def make(spec):
     from kio.static.constants import EntityType
     from kio.static.primitive import i8, i16
 
+    if spec.get("nested_tagged"):
+        i16_, i32_ = py_type("int16"), py_type("int32")
+        cv = {"__type__": EntityType.nested, "__version__": i16(0), "__flexible__": True}
+        ca = {"__type__": ClassVar, "__version__": ClassVar[i16], "__flexible__": ClassVar[bool]}
+        inner = dataclasses.dataclass(frozen=True, slots=True, kw_only=True)(type("RowInner", (), dict(
+            cv, __annotations__=dict(ca, aa=i32_, bb=i16_, cc=str), __module__="kverif.synthetic",
+            aa=dataclasses.field(metadata={"kafka_type": "int32"}),
+            bb=dataclasses.field(metadata={"kafka_type": "int16", "tag": 0}, default=i16_(0)),
+            cc=dataclasses.field(metadata={"kafka_type": "string", "tag": 1}, default=""))))
+        outer = dataclasses.dataclass(frozen=True, slots=True, kw_only=True)(type("RowOuter", (), dict(
+            cv, __annotations__=dict(ca, lead=i8, value=inner, many=tuple[inner, ...]), __module__="kverif.synthetic",
+            lead=dataclasses.field(metadata={"kafka_type": "int8"}),
+            value=dataclasses.field(metadata={"tag": 0}, default=inner(aa=i32_(0))),
+            many=dataclasses.field(metadata={"tag": 1}, default=()))))
+        ws = wire_schema(outer)
+        ws.path = "synthetic:" + key
+        _made[key] = ws
+        return ws
     t = py_type(spec["kt"])
     ann = t | None if spec["nullable"] else t
     if spec["array"]:
